@@ -392,6 +392,8 @@ def _call(method, conn, args, kwargs, ctor_order):
         if method.startswith("T."):
             m = _method("T", ctor_order)
             tbl = getattr(m, method[2:])(conn, *args, **kwargs)
+            if tbl is None:                       # "single record or None" (docstring of one_or_none)
+                return ("rows", [])
             return ("rows", [tuple(r) for r in tbl.records])
         m = _method("S", ctor_order)
         if method.endswith("+scalars"):
@@ -511,6 +513,8 @@ def run_case(case, acc, count=True, classify=True):
         if case["via"] == "ctor":
             feats.append("via:ctor")
         _count(acc, label, unknown, len(bound), feats, v)
+        if v is None and unknown and len(bound) >= 2 and acc.evaluations % 53 == 0:
+            acc.sample({"case": case, "expected": label})
     if v is not None:
         _report(acc, case, v, leaves if classify else None)
     return v
